@@ -348,11 +348,17 @@ fn do_undo_redo_inner(w: &mut World, undo: bool) -> VResult {
     let before_untracked = scoped_dump(w, &scope, false);
     let before_obs = observe_seq(&w.nodes[0].doc.transact());
     let pre = crate::monitors::pre_txn(w, 0);
+    let _ = yrs::verif::take_probes();
     let (did, can_more) = {
         let st = w.mon.undo.as_mut().unwrap();
         let did = if undo { st.um.undo_blocking() } else { st.um.redo_blocking() };
         (did, if undo { st.um.can_undo() } else { st.um.can_redo() })
     };
+    // F11 is identified by its call site: ItemPtr::redo refused to restore a map entry because of
+    // its right neighbour during this very call (in the inverse-law regime no other origin has
+    // edited, so there is no foreign change it could conflict with)
+    let refused = yrs::verif::take_probes().iter().any(|(s, _)| *s == "redo.map-entry-refused");
+    let inverse_oracle = if refused { "undo.inverse-map-redo-refused" } else { "undo.inverse" };
     let uid = w.collect_emission(0, true)?;
     crate::monitors::post_txn(w, 0, TxnKind::Undo, uid, pre, &[])?;
     w.stats.oracle_evals += 1;
@@ -441,8 +447,13 @@ fn do_undo_redo_inner(w: &mut World, undo: bool) -> VResult {
             None => after_tracked == cur,
         };
         if !ok {
-            return Err(viol(
-                "undo.inverse",
+            if refused {
+                // recorded (soft), the model is resynchronised and the run goes on
+                st.pure = false;
+                st.why.push("undo.impure:after-F11");
+            }
+            let v = viol(
+                inverse_oracle,
                 format!(
                     "undo() (returned {}, stack {} -> {} items) did not restore the tracked types to the content before the last captured step with a visible effect\n  before undo: {}\n  after undo : {}\n  expected   : {}",
                     did,
@@ -452,7 +463,10 @@ fn do_undo_redo_inner(w: &mut World, undo: bool) -> VResult {
                     after_tracked,
                     expected.unwrap_or_else(|| "(no captured step with a visible effect: unchanged)".into())
                 ),
-            ));
+            );
+            st.stack_states.resize(new_undo, after_tracked.clone());
+            st.redo_states.resize(new_redo, after_tracked.clone());
+            return Err(v);
         }
         let grown = new_redo.saturating_sub(st.redo_states.len());
         for _ in 0..grown {
@@ -478,8 +492,12 @@ fn do_undo_redo_inner(w: &mut World, undo: bool) -> VResult {
             None => after_tracked == cur,
         };
         if !ok {
-            return Err(viol(
-                "undo.inverse",
+            if refused {
+                st.pure = false;
+                st.why.push("undo.impure:after-F11");
+            }
+            let v = viol(
+                inverse_oracle,
                 format!(
                     "redo() (returned {}, redo stack {} -> {} items) did not restore the tracked types to the content after the undone step\n  before redo: {}\n  after redo : {}\n  expected   : {}",
                     did,
@@ -489,7 +507,10 @@ fn do_undo_redo_inner(w: &mut World, undo: bool) -> VResult {
                     after_tracked,
                     expected.unwrap_or_else(|| "(nothing with a visible effect to redo: unchanged)".into())
                 ),
-            ));
+            );
+            st.stack_states.resize(new_undo, after_tracked.clone());
+            st.redo_states.resize(new_redo, after_tracked.clone());
+            return Err(v);
         }
         let grown = new_undo.saturating_sub(st.stack_states.len());
         for k in 0..grown {
